@@ -276,6 +276,13 @@ impl Prop for C05 {
             out.push(format!("parsenr {}", shex(s)));
             out.push(format!("elem {}", shex(s)));
         }
+        // token length limit with the first / last scalar of each UTF-8 length as the last char: 256 and 257 bytes
+        for c in ['\u{7f}', '\u{80}', '\u{7ff}', '\u{800}', '\u{ffff}', '\u{10000}', '\u{10ffff}'] {
+            for total in [256usize, 257] {
+                out.push("reset".into());
+                out.push(format!("parse {}", shex(&format!("/{}{}", "a".repeat(total - 1 - c.len_utf8()), c))));
+            }
+        }
         // token length limit: 255 / 256 / 257 bytes, ASCII and multi-byte
         for k in [253usize, 254, 255, 256] {
             out.push("reset".into());
